@@ -1,6 +1,7 @@
 package main
 
 import (
+	"go/token"
 	"fmt"
 	"os"
 	"sort"
@@ -149,6 +150,7 @@ func (x *Exec) tryAdapt(f *Frame, st *State, b *ssa.BasicBlock, groups [][]*Clau
 	sort.Slice(cands, func(i, j int) bool { return cands[i].name < cands[j].name })
 	var found *loopAdapt
 	nfound := 0
+	var plain []*loopAdapt // hits that rename without shifting: preferred when several substitutions hold on entry
 	for _, group := range groups {
 		unk := x.unknownIdents(env, group)
 		if os.Getenv("GOVC_TRACE") != "" {
@@ -164,15 +166,41 @@ func (x *Exec) tryAdapt(f *Frame, st *State, b *ssa.BasicBlock, groups [][]*Clau
 			}
 			continue
 		}
+		// a range loop turned into an index loop: the index of the range loop is the counter of the index loop minus one
+		// (the counter is the variable the loop header compares with the bound)
+		var pre []adaptBinding
+		for _, u := range unk {
+			if u != "rangeindex" {
+				continue
+			}
+			for _, ins := range b.Instrs {
+				if bo, ok := ins.(*ssa.BinOp); ok && bo.Op == token.LSS {
+					if phi, isPhi := bo.X.(*ssa.Phi); isPhi && phi.Comment != "" && phi.Block() == b {
+						if _, bound := env.vars[phi.Comment]; bound && len(pre) == 0 {
+							pre = append(pre, adaptBinding{name: "rangeindex", base: phi.Comment, off: -1})
+						}
+					}
+				}
+			}
+		}
+		if len(pre) > 0 {
+			var rest []string
+			for _, u := range unk {
+				if u != "rangeindex" {
+					rest = append(rest, u)
+				}
+			}
+			unk = rest
+		}
 		if len(unk) > 3 {
 			continue
 		}
 		// enumerate substitutions
-		var cur []adaptBinding
+		cur := append([]adaptBinding(nil), pre...)
 		tried := 0
 		var rec func(i int)
 		rec = func(i int) {
-			if tried > 400 || nfound > 1 {
+			if tried > 400 || nfound > 8 {
 				return
 			}
 			if i == len(unk) {
@@ -181,11 +209,21 @@ func (x *Exec) tryAdapt(f *Frame, st *State, b *ssa.BasicBlock, groups [][]*Clau
 				e2 := x.frameEnv(f, st, b)
 				x.addTopLets(e2)
 				ad.apply(e2)
+				e2.noPromote = true
 				if os.Getenv("GOVC_TRACE") != "" {
 					fmt.Fprintf(os.Stderr, "adapt try %s\n", ad.String())
 				}
 				if x.groupHoldsOnEntry(e2, st, group) {
 					found, nfound = ad, nfound+1
+					shifted := false
+					for _, b0 := range ad.subst {
+						if b0.off != 0 {
+							shifted = true
+						}
+					}
+					if !shifted {
+						plain = append(plain, ad)
+					}
 					if os.Getenv("GOVC_TRACE") != "" {
 						fmt.Fprintf(os.Stderr, "adapt: holds on entry: %s\n", ad.String())
 					}
@@ -222,6 +260,11 @@ func (x *Exec) tryAdapt(f *Frame, st *State, b *ssa.BasicBlock, groups [][]*Clau
 		}
 	}
 	if nfound != 1 {
+		// several substitutions hold on entry (an index shifted by one is 0 there, like a fresh accumulator): a unique
+		// pure renaming wins - whatever is chosen is proved inductive afterwards, so a wrong choice cannot verify
+		if len(plain) == 1 {
+			return plain[0]
+		}
 		return nil // none, or ambiguous: do not guess
 	}
 	return found
